@@ -215,6 +215,9 @@ def classify(r, unit, tags):
         ob['cls'] = 'internal'
     ob['props'] = unit['props'].get(ob['cls'], unit['serves'] if ob['cls'] in ('loop', 'unwind', 'internal') else [])
     ob['tag'] = '%s@%s:%d' % (ob['cls'], os.path.basename(f), line)
+    if unit.get('ub_by_function') and ob['cls'] == 'ub':
+        # key the arithmetic / conversion checks of this unit by function, not by line (known findings stay matched when lines move)
+        ob['tag'] = 'ub@%s:%s' % (os.path.basename(f), fn)
     if ob['cls'] in ('internal',) and f.startswith('<builtin'):
         ob['tag'] = 'dfcc-library'
     return ob
